@@ -132,7 +132,7 @@ func (e *Ev) specExpr(s string) Term {
 		nq := len(e.qvars)
 		e.qvars = append(e.qvars, binds...)
 		if e.qindex == nil {
-			e.qindex = map[string][2]string{}
+			e.qindex = map[string][][2]string{}
 		}
 		var smtNames []string
 		for _, n := range names {
@@ -149,30 +149,35 @@ func (e *Ev) specExpr(s string) Term {
 		}
 		// Re-index: a bound variable j used as s[j] is replaced by the absolute array index
 		// p = off(s)+j, and the element access becomes the trigger. Matching on (+ off j) would
-		// need arithmetic in the pattern, which E-matching cannot do.
-		bs := body.S
-		var pats []string
-		for k, nm := range smtNames {
-			ci, ok := e.qindex[nm]
-			if !ok {
-				continue
-			}
+		// need arithmetic in the pattern, which E-matching cannot do. When j indexes two different
+		// slices (a[j] == b[j]) the formula is emitted twice, re-indexed on either side, so that it
+		// can be instantiated from terms of both heaps.
+		if len(smtNames) == 1 && q == "forall" && binds[0] == fmt.Sprintf("(%s Int)", smtNames[0]) {
+			nm := smtNames[0]
+			cands := e.qindex[nm]
 			delete(e.qindex, nm)
-			off, sel := ci[0], ci[1]
-			if strings.Contains(off, nm) || binds[k] != fmt.Sprintf("(%s Int)", nm) {
-				continue
+			var versions []string
+			for k, ci := range cands {
+				off, sel := ci[0], ci[1]
+				if strings.Contains(off, nm) {
+					continue
+				}
+				p := fmt.Sprintf("%sp%d", nm, k)
+				bs := body.S
+				bs = strings.ReplaceAll(bs, "(+ "+off+" "+nm+")", p)
+				bs = strings.ReplaceAll(bs, nm+")", "(- "+p+" "+off+"))")
+				bs = strings.ReplaceAll(bs, nm+" ", "(- "+p+" "+off+") ")
+				pat := strings.ReplaceAll(sel, "(+ "+off+" "+nm+")", p)
+				versions = append(versions, fmt.Sprintf("(forall ((%s Int)) (! %s :pattern (%s)))", p, bs, pat))
 			}
-			p := nm + "p"
-			bs = strings.ReplaceAll(bs, "(+ "+off+" "+nm+")", p)
-			bs = strings.ReplaceAll(bs, nm+")", "(- "+p+" "+off+"))")
-			bs = strings.ReplaceAll(bs, nm+" ", "(- "+p+" "+off+") ")
-			bs = strings.ReplaceAll(bs, "(- "+p+" "+off+")p", p) // undo accidental hits on p itself
-			binds[k] = fmt.Sprintf("(%s Int)", p)
-			pats = append(pats, strings.ReplaceAll(sel, "(+ "+off+" "+nm+")", p))
+			if len(versions) > 0 {
+				return Term{S: smtAnd(versions...), Sort: sBool, T: boolT}
+			}
 		}
-		if len(pats) > 0 && q == "forall" {
-			return Term{S: fmt.Sprintf("(%s (%s) (! %s :pattern (%s)))", q, strings.Join(binds, " "), bs, strings.Join(pats, " ")), Sort: sBool, T: boolT}
+		for _, nm := range smtNames {
+			delete(e.qindex, nm)
 		}
+		bs := body.S
 		return Term{S: fmt.Sprintf("(%s (%s) %s)", q, strings.Join(binds, " "), bs), Sort: sBool, T: boolT}
 	}
 	if parts := splitTop(s, "<==>"); len(parts) > 1 {
